@@ -183,6 +183,12 @@ func runChildren(r *vlib.Run, bin, entry string, total, batch int, perChildTimeo
 				r.Sample(m.X)
 			case m.S != nil:
 				for k, v := range m.S {
+					if strings.HasPrefix(k, "max:") {
+						if v > res.stats[k] {
+							res.stats[k] = v
+						}
+						continue
+					}
 					res.stats[k] += v
 				}
 				for _, k := range m.D {
